@@ -31,7 +31,8 @@ Entry points
     run_assignblk(assignblk, state)                    -> None            (one parallel step)
     run_block(assignblks, state, irdst=None)           -> int | None      (value of IRDst, if assigned)
     run_ircfg(ircfg, head_loc, state, max_steps=10000, max_blocks=None, irdst=None) -> Run
-    bind_locs(state, ircfg_or_loc_db, loc_keys)        fill State.locs
+    bind_locs(state, loc_db, loc_keys, width=32)       fill State.locs (LocKey -> int)
+    loc_keys_of(ircfg)                                 LocKeys naming blocks or used in expressions
 
 `assignblks` is any iterable of AssignBlock-like objects: a miasm AssignBlock, a dict
 {dst: src}, or a list of (dst, src) pairs / ExprAssign.
@@ -192,21 +193,23 @@ def run_block(assignblks, state, irdst=None):
     return state.reg(dst_id.name, dst_id.size)
 
 
-def bind_locs(state, loc_db, loc_keys, synthetic_base=0x7E000000):
+def bind_locs(state, loc_db, loc_keys, width=32):
     """Give every LocKey of loc_keys a concrete value in state.locs: its offset in loc_db when it
-    has one, else a distinct synthetic value (synthetic_base + 0x10 * key index), so that S evaluates
-    ExprLoc consistently on every side of a comparison."""
-    used = set(state.locs.values())
+    has one, else a distinct synthetic value near the top of the `width`-bit space (0x7E000000 + 0x10 * key
+    index for width >= 32, 0x7E00 + 4 * index for narrower destinations), so that S evaluates ExprLoc
+    consistently on every side of a comparison.  Values are compared modulo 2^width by run_ircfg."""
+    used = set(v & mask(width) for v in state.locs.values())
+    base, step = (0x7E000000, 0x10) if width >= 32 else (0x7E00 & mask(width), 4)
     for lk in sorted(loc_keys, key=lambda k: k.key):
         if lk in state.locs:
             continue
         off = loc_db.get_location_offset(lk)
         if off is None:
-            off = synthetic_base + 0x10 * lk.key
+            off = (base + step * lk.key) & mask(width)
             while off in used:
-                off += 1
+                off = (off + 1) & mask(width)
         state.locs[lk] = off
-        used.add(off)
+        used.add(off & mask(width))
 
 
 def loc_keys_of(ircfg):
@@ -238,15 +241,16 @@ def loc_keys_of(ircfg):
 
 def run_ircfg(ircfg, head_loc, state, max_steps=10000, max_blocks=None, irdst=None):
     """Execute the graph from block `head_loc` (a LocKey).  See module docstring.  -> Run"""
-    bind_locs(state, ircfg.loc_db, loc_keys_of(ircfg))
+    if irdst is None:
+        irdst = getattr(ircfg, "IRDst", None)
+    width = irdst.size if irdst is not None else 32
+    bind_locs(state, ircfg.loc_db, loc_keys_of(ircfg), width)
     by_value = {}
     for lk in ircfg.blocks:
-        v = state.locs[lk]
+        v = state.locs[lk] & mask(width)
         if v in by_value:
             raise DomainError("two blocks share the address 0x%x" % v)
         by_value[v] = lk
-    if irdst is None:
-        irdst = getattr(ircfg, "IRDst", None)
     run = Run()
     cur = head_loc
     start_steps = state.steps
@@ -273,7 +277,7 @@ def run_ircfg(ircfg, head_loc, state, max_steps=10000, max_blocks=None, irdst=No
         if cur is None:
             # destination may still be a location without block
             for lk, v in state.locs.items():
-                if v == dst:
+                if v & mask(width) == dst:
                     run.dst_loc = lk
                     break
             run.reason = "exit"
